@@ -17,7 +17,15 @@ open Lean IQE IQE.Spec IQE.Engine.Acc
 namespace Driver.C21
 open Driver.SQL
 
+/-- every NaN is one value here (which NaN an arithmetic operation yields — e.g. the sign of 0.0/0 — is hardware / engine-defined) -/
+def canonNaN (t : Table) : Table :=
+  t.map fun r => r.map fun v => match v with
+    | .f64 x => if x.isNaN then .f64 F64.nan else v
+    | v => v
+
 def bagEq (a b : Table) : Bool :=
+  let a := canonNaN a
+  let b := canonNaN b
   a.length == b.length && (a.foldl (fun rest r => Spec.removeFirst r rest) b).isEmpty
 
 def colTy (dflt : Ty) (vals : List Val) : Ty :=
